@@ -8062,7 +8062,12 @@ class LocalFS:
                       follow_symlinks: bool = True) -> None:
         """Set attributes of a local file, directory, or symlink"""
 
-        _setstat(_to_local_path(path), attrs, follow_symlinks=follow_symlinks)
+        try:
+            _setstat(_to_local_path(path), attrs,
+                     follow_symlinks=follow_symlinks)
+        except OverflowError as exc:
+            # A size, id or time the remote side sent doesn't fit this system
+            raise OSError(errno.EOVERFLOW, str(exc)) from None
 
     async def exists(self, path: bytes) -> bool:
         """Return if the local path exists and isn't a broken symbolic link"""
